@@ -195,13 +195,12 @@ def unbound_names(msg):
 
 # known root causes (features computed by vlib/c08_sugar.features) and the parser failures each of them explains
 PARSE_CAUSES = (("dd_below_exists", ("unbound",)),
-                ("free_head_before_omitted", ("unbound", "unknown_variable", "stop_iteration")),
                 ("merge_alternatives_differ", ("unbound", "unknown_variable", "stop_iteration", "no_conversion")),
                 ("xp_binder_under_iff_xor", ("unbound", "unknown_variable", "stop_iteration")),
                 ("xp_head_name_reused", ("unbound", "unknown_variable", "stop_iteration", "no_conversion")),
                 ("dup_binder_captures_xpath_var", ("unbound", "unknown_variable", "stop_iteration")))
 # (the shapes of repaired findings -- multi_segment, free_plain_and_head, free_before_omitted, free_after_xpath_same_type,
-#  free_start_child, start_omitted_name, dd_on_start, const_atom, const_implicit_start -- are still computed as class labels,
+#  free_start_child, start_omitted_name, dd_on_start, const_atom, const_implicit_start, free_head_before_omitted -- are still computed as class labels,
 #  but no longer explain a failure: a failure on them is reported as parse:unexplained)
 
 
@@ -440,7 +439,7 @@ def judge(case):
             seen.add(sig)
             viol.append(dict(sig=sig, sugar=text, core=core_text, **kw))
 
-    family = next((c for c in ("dd_negated_binder", "free_head_before_omitted", "merge_alternatives_differ",
+    family = next((c for c in ("dd_negated_binder", "merge_alternatives_differ",
                                "xp_binder_under_iff_xor", "xp_head_name_reused", "dup_binder_captures_xpath_var")
                    if c in causes),
                   "xpath" if fs & {"xp_child", "xp_dd"} else "free" if "free_nt" in fs else "plain")
